@@ -86,8 +86,8 @@ func TestC11_NoOrphans(t *testing.T) {
 }
 
 // TestC11_Known_ValueBlobLeak is the minimal reproduction of the recorded finding: a store that keeps
-// values outside the node (separate segment); add an item, commit; remove it in a second transaction,
-// commit: the item's value blob stays on disk although nothing references it.
+// values outside the node (separate segment); add an item, commit; update it in a second transaction,
+// commit: a value blob stays on disk although nothing references it.
 func TestC11_Known_ValueBlobLeak(t *testing.T) {
 	e, err := txh.NewEnv(2)
 	if err != nil {
@@ -101,7 +101,7 @@ func TestC11_Known_ValueBlobLeak(t *testing.T) {
 	models := []*txh.Model{{Unique: true}}
 	for _, p := range []txh.TxnProg{
 		{Mode: 1, End: "commit", Ops: []txh.Op{{Kind: "add", K: 3, Tag: "a"}}},
-		{Mode: 1, End: "commit", Ops: []txh.Op{{Kind: "remove", K: 3}}},
+		{Mode: 1, End: "commit", Ops: []txh.Op{{Kind: "update", K: 3, Tag: "b"}}},
 	} {
 		var res txh.TxnResult
 		models, res = e.RunTxn(p, stores, models, txh.RunOpts{})
@@ -113,7 +113,7 @@ func TestC11_Known_ValueBlobLeak(t *testing.T) {
 	if len(ov) == 0 {
 		return
 	}
-	what := "store with values outside the node: add(k) commit; remove(k) commit leaves the item's value blob on disk, referenced by nothing (itemActionTracker.manage schedules the old blob for deletion only while the item says ValueNeedsFetch; items are persisted with the value inline in the node as well, so the flag is false)"
+	what := "store with values in a separate segment: add(k) commit; update(k) commit leaves a value blob on disk that nothing references: the update writes the new value to a blob under a new id, but the committed node keeps the item's value inline under the item's old id (the tracker works on a copy of the item, not on the node's slot), so the new blob is never referenced nor deleted"
 	if stats.Known("C11", "out-of-node-value-blobs-leak") {
 		stats.For("C11").KnownFinding(what)
 		return
